@@ -35,10 +35,13 @@ type Scenario struct {
 	Timestamping bool
 	Plans        []CertPlan // one per position; the root's entry only carries Shape.NoCRLSign and pointers nobody serves
 	WithST       bool
-	Entry        string // validate | validate-deprecated | ocsp
-	CRLRoute     string // fetcher | http
-	Cache        string // "" | healthy | get-fault | set-fault
-	Discard      bool
+	// STOutside (with WithST) supplies a signing time outside every certificate's
+	// validity period; only checks that do not judge verdicts use it
+	STOutside bool
+	Entry     string // validate | validate-deprecated | ocsp
+	CRLRoute  string // fetcher | http
+	Cache     string // "" | healthy | get-fault | set-fault
+	Discard   bool
 	// ClientTimeoutMs > 0 gives the HTTP client a (short, real) timeout so that
 	// a responder that never answers ends in a genuine client timeout.
 	ClientTimeoutMs int
@@ -50,6 +53,9 @@ func (sc *Scenario) Desc() string {
 	fmt.Fprintf(&b, "len=%d ca=%s ts=%v st=%v entry=%s route=%s cache=%s discard=%v", sc.Len, sc.CAKind, sc.Timestamping, sc.WithST, sc.Entry, sc.CRLRoute, sc.Cache, sc.Discard)
 	if sc.ClientTimeoutMs > 0 {
 		fmt.Fprintf(&b, " client-timeout=%dms", sc.ClientTimeoutMs)
+	}
+	if sc.STOutside {
+		b.WriteString(" signing-time-outside-validity")
 	}
 	for i, p := range sc.Plans {
 		fmt.Fprintf(&b, " | c%d o=%v/%v d=%v/%v", i, p.Shape.OCSP, p.OCSP, p.Shape.CRL, p.CRL)
@@ -271,6 +277,9 @@ func (env *Env) Run(ctx context.Context) *Outcome {
 	var st time.Time
 	if sc.WithST {
 		st = SigningTime
+		if sc.STOutside {
+			st = time.Date(1987, 6, 5, 4, 3, 2, 0, time.UTC)
+		}
 	}
 	pur := purpose.CodeSigning
 	if sc.Timestamping {
